@@ -247,6 +247,7 @@ func (group *Group) broadcastByRtmpMsg(msg base.RtmpMsg) {
 	// # 广播。遍历所有 rtmp sub session，转发数据
 	// ## 如果是新的 sub session，发送已缓存的信息
 	for session := range group.rtmpSubSessionSet {
+		wasFresh := session.IsFresh
 		if session.IsFresh {
 			// TODO chef: 头信息和full gop也可以在SubSession刚加入时发送
 			if group.rtmpGopCache.MetadataEnsureWithoutSetDataFrame != nil {
@@ -291,6 +292,19 @@ func (group *Group) broadcastByRtmpMsg(msg base.RtmpMsg) {
 			// 让rtmp buf writer来发送这个关键帧
 			if group.rtmpMergeWriter != nil {
 				group.rtmpMergeWriter.Flush()
+			}
+			if !wasFresh {
+				// metadata and sequence headers that arrived while the session was waiting were
+				// withheld from it: send the current ones before the key frame that admits it
+				if group.rtmpGopCache.MetadataEnsureWithoutSetDataFrame != nil {
+					_ = session.Write(group.rtmpGopCache.MetadataEnsureWithoutSetDataFrame)
+				}
+				if group.rtmpGopCache.VideoSeqHeader != nil {
+					_ = session.Write(group.rtmpGopCache.VideoSeqHeader)
+				}
+				if group.rtmpGopCache.AacSeqHeader != nil {
+					_ = session.Write(group.rtmpGopCache.AacSeqHeader)
+				}
 			}
 			session.ShouldWaitVideoKeyFrame = false
 		}
@@ -337,6 +351,7 @@ func (group *Group) broadcastByRtmpMsg(msg base.RtmpMsg) {
 
 	// # 广播。遍历所有 httpflv sub session，转发数据
 	for session := range group.httpflvSubSessionSet {
+		wasFresh := session.IsFresh
 		if session.IsFresh {
 			if group.httpflvGopCache.MetadataEnsureWithoutSetDataFrame != nil {
 				session.Write(group.httpflvGopCache.MetadataEnsureWithoutSetDataFrame)
@@ -364,6 +379,18 @@ func (group *Group) broadcastByRtmpMsg(msg base.RtmpMsg) {
 		// 是否在等待关键帧
 		if session.ShouldWaitVideoKeyFrame {
 			if msg.IsVideoKeyNalu() {
+				if !wasFresh {
+					// see the rtmp loop above: headers withheld while waiting are sent now
+					if group.httpflvGopCache.MetadataEnsureWithoutSetDataFrame != nil {
+						session.Write(group.httpflvGopCache.MetadataEnsureWithoutSetDataFrame)
+					}
+					if group.httpflvGopCache.VideoSeqHeader != nil {
+						session.Write(group.httpflvGopCache.VideoSeqHeader)
+					}
+					if group.httpflvGopCache.AacSeqHeader != nil {
+						session.Write(group.httpflvGopCache.AacSeqHeader)
+					}
+				}
 				session.Write(lazyRtmpMsg2FlvTag.GetEnsureWithoutSdf())
 				session.ShouldWaitVideoKeyFrame = false
 			}
